@@ -907,6 +907,11 @@ where
             // TODO(soon): check_sane
             let mut lock = ps_ref.borrow().new_lock(fid);
             let mut backoff = Duration::from_millis(100);
+            // wait_all() may have left us without any token, and starting a job needs
+            // exactly one.  No lock is held here (all jobs are finished and recorded),
+            // so it is safe to wait for a token before looking at the lock: if the
+            // target has become free in the meantime we go straight on to build it.
+            server.ensure_token_or_cheat(t.as_str(), &mut cheat).await?;
             lock.try_lock()?;
             while !lock.is_owned() {
                 // Don't spin with 100% CPU while we fight for the lock.
